@@ -1,1 +1,47 @@
-(* placeholder replaced when the interleaving proofs are integrated *)
+(* Property C16 - snapshots taken concurrently with processing are whole frames; no data races.
+   Proof on an interleaving model (model/Concurrent.v) - partial: Go memory-model effects beyond
+   sequential consistency and scheduler fairness are outside it.  The data-race clause is a finite
+   access table decided by vm_compute and compared with the Go race detector's reports. *)
+From Coq Require Import List ZArith Bool Arith.
+From TR Require Import model.Concurrent proofs.ConcurrentProofs.
+Import ListNotations.
+Open Scope Z_scope.
+
+(* For every interleaving of the frame loop and a requester, every ring capacity >= 2 and every
+   frame size: a snapshot requested after at least one frame has been processed is, pixel for
+   pixel, ONE whole frame j - never a mixture - with
+     (frames completed when the request was made) <= j <= (frames completed when it returned). *)
+Theorem C16_whole_frame : forall size npix sched a b r,
+    2 <= size -> (1 <= npix)%nat ->
+    cs_rpc (crun (cs_init size npix) sched) = RDone a b r ->
+    1 <= a ->
+    exists j, a <= j <= b /\ r = repeat j npix.
+Proof. exact whole_frame. Qed.
+
+(* a request never corrupts the pipeline: the frame loop's state is what it reaches alone ... *)
+Theorem C16_loop_unaffected : forall size npix sched,
+    1 <= size -> (1 <= npix)%nat ->
+    let s := crun (cs_init size npix) sched in
+    exists n, loop_view s = loop_view (loop_only (cs_init size npix) n).
+Proof. exact loop_unaffected. Qed.
+
+(* ... nor stalls it: the requester holds the ring mutex for one bounded copy *)
+Theorem C16_requester_releases : forall s a idx acc,
+    cs_rpc s = RCopy a idx 0 acc -> cs_lock s = Some TReq -> (1 <= cs_npix s)%nat ->
+    cs_lock (crun s (repeat TReq (S (cs_npix s)))) = None.
+Proof. exact requester_releases. Qed.
+
+(* KNOWN FINDINGS as refutations of the unguarded statements *)
+Theorem C16_size1_refuted :
+  exists sched a b r,
+    cs_rpc (crun (cs_init 1 2) sched) = RDone a b r /\ 1 <= a /\ ~ exists j, r = repeat j 2.
+Proof. exact whole_frame_size1_refuted. Qed.
+
+Theorem C16_early_request_blank :
+  exists sched b r, cs_rpc (crun (cs_init 3 2) sched) = RDone 0 b r /\ r = [0; 0].
+Proof. exact early_request_blank. Qed.
+
+(* data-race clause over the access table: exactly CurrentFrame (2), StartSnapshot (3),
+   processor (4), headerInfo (5) are racy - known findings; the ring index and slots are not *)
+Theorem C16_racy_variables : racy_vars = [2; 3; 4; 5]%nat.
+Proof. exact racy_variables. Qed.
